@@ -19,7 +19,7 @@ import (
 var c15Seq atomic.Uint32
 
 func TestVfC15Listeners(t *testing.T) {
-	st := vfkit.Stats("TestVfC15Listeners", "scenarios: a flooding client subnet (UDP queries / TCP queries on one connection / TCP, TLS or QUIC connection storms / HTTP requests with a client-address header incl. IPv6 /48s) next to a slow client of another subnet that stays within its own budget and a client in the listener's own /24; limiter {limit 50/s, burst 50, masks omitted}; oracles: the slow and the bystander clients are never refused, admitted queries of the flooding subnet <= burst + rate x window, refused UDP/TCP queries get REFUSED with their ID, HTTP 503, and never reach the upstream; non-trivial = the flood was actually refused at least once")
+	st := vfkit.Stats("TestVfC15Listeners", "scenarios: a flooding client subnet (UDP queries / 90 pipelined queries on one tcp, tls or gnet connection (max_concurrent_queries 40) followed, a refill later, by sequential queries on that same connection / TCP, TLS or QUIC connection storms / HTTP requests with a client-address header incl. IPv6 /48s) next to a slow client of another subnet that stays within its own budget and a client in the listener's own /24; limiter {limit 50/s, burst 50, masks omitted}, with and without a (never exhausted) global limit; oracles: the slow and the bystander clients are never refused, admitted queries of the flooding subnet <= burst + rate x window, refused UDP/TCP queries get REFUSED with their ID, HTTP 503, and never reach the upstream; non-trivial = the flood was actually refused at least once")
 	defer vfkit.Flush()
 	block := NextIPBlock()
 	up, err := StartUpstream("udp", "up", block+"2", 0, nil, func(q *UpQuery) UpAction {
@@ -30,23 +30,38 @@ func TestVfC15Listeners(t *testing.T) {
 	}
 	defer up.Close()
 	const limit, burst = 50, 50
-	pip := block + "10"
-	cfg := &Config{Servers: StdServers(pip, []string{"udp", "tcp", "gnet", "tls", "http", "quic"}, "X-Client"), Upstreams: []UpstreamCfg{{Tag: "up", Addr: up.Addr()}}, Rules: []Rule{{Forward: "up"}},
-		Limiter: &LimiterCfg{Client: &ClientLimiterCfg{Limit: limit, Burst: burst}}}
-	p, err := StartProxy(cfg.YAML(), nil, ProxyOpts{})
-	if err != nil {
-		t.Fatal(err)
+	// two proxies: without a global limit, and with one that is never exhausted here (1e6/s) - the presence of the shared
+	// limiter must not change any per-client decision
+	var pips [2]string
+	var ps [2]*Proxy
+	for i, global := range []int{0, 1000000} {
+		pips[i] = block + itoa(10+i)
+		cfg := &Config{Servers: StdServers(pips[i], []string{"udp", "tcp", "gnet", "tls", "http", "quic"}, "X-Client"), Upstreams: []UpstreamCfg{{Tag: "up", Addr: up.Addr()}}, Rules: []Rule{{Forward: "up"}},
+			Limiter: &LimiterCfg{GlobalLimit: global, Client: &ClientLimiterCfg{Limit: limit, Burst: burst}}}
+		for j := range cfg.Servers {
+			switch cfg.Servers[j].Protocol {
+			case "tcp", "tls", "gnet":
+				cfg.Servers[j].Tcp = &TcpCfg{MaxConcurrentQueries: 40}
+			}
+		}
+		px, err := StartProxy(cfg.YAML(), nil, ProxyOpts{})
+		if err != nil {
+			t.Fatal(err)
+		}
+		defer px.Cleanup()
+		ps[i] = px
 	}
-	defer p.Cleanup()
 	insecure := &tls.Config{InsecureSkipVerify: true}
 	var lastOwnSubnetUse time.Time
 	rapid.Check(t, func(t *rapid.T) {
 		n := c15Seq.Add(1)
 		pid := uint32(os.Getpid())
+		withGlobal := rapid.IntRange(0, 1).Draw(t, "withGlobalLimit")
+		pip, p := pips[withGlobal], ps[withGlobal]
 		// fresh subnets for this case
 		subA := fmt.Sprintf("127.%d.%d.", 30+(n/250)%20, n%250)
 		subB := fmt.Sprintf("127.%d.%d.", 50+(n/250)%10, n%250)
-		kind := rapid.SampledFrom([]string{"udp", "tcp-queries", "tcp-conns", "gnet-conns", "tls-conns", "quic-conns", "http-v4", "http-v6"}).Draw(t, "flood")
+		kind := rapid.SampledFrom([]string{"udp", "tcp-queries", "tls-queries", "gnet-queries", "tcp-conns", "gnet-conns", "tls-conns", "quic-conns", "http-v4", "http-v6"}).Draw(t, "flood")
 		hostA := rapid.IntRange(1, 120).Draw(t, "hostA")
 		label := fmt.Sprintf("c%dp%d", n, pid)
 		mkName := func(who string, i int) vfkit.Name {
@@ -104,8 +119,13 @@ func TestVfC15Listeners(t *testing.T) {
 				}
 			}
 			c.Close()
-		case "tcp-queries":
-			c, err := DialStream(subA+itoa(hostA), fmt.Sprintf("%s:%d", pip, ListenerPorts["tcp"]), nil, 2*time.Second)
+		case "tcp-queries", "tls-queries", "gnet-queries":
+			lk := map[string]string{"tcp-queries": "tcp", "tls-queries": "tls", "gnet-queries": "gnet"}[kind]
+			var tc *tls.Config
+			if lk == "tls" {
+				tc = insecure
+			}
+			c, err := DialStream(subA+itoa(hostA), fmt.Sprintf("%s:%d", pip, ListenerPorts[lk]), tc, 2*time.Second)
 			if err != nil {
 				t.Fatalf("dial: %v", err)
 			}
@@ -116,6 +136,22 @@ func TestVfC15Listeners(t *testing.T) {
 			}
 			c.C.Write(stream)
 			frames, _, _ := c.ReadFrames(N, 2*time.Second)
+			if len(frames) == N {
+				// The same connection once the bucket has refilled (50/s: full again after a second): the client is within
+				// its budget and nothing is in flight, so it is served - being refused earlier must leave nothing behind.
+				time.Sleep(1300 * time.Millisecond)
+				for i := 0; i < 4; i++ {
+					c.C.Write(frame(Query(uint16(3000+i), mkName("later", i), 1, 1, false)))
+					fr, _, closed := c.ReadFrames(1, 2*time.Second)
+					if len(fr) != 1 || fr[0].Msg.ID != uint16(3000+i) || fr[0].Msg.Rcode() != 0 {
+						rc := -1
+						if len(fr) == 1 {
+							rc = fr[0].Msg.Rcode()
+						}
+						t.Fatalf("%s: 1.3 s after a refused flood on this connection (bucket refilled, nothing in flight) query %d on the same connection got rcode %d (responses %d, closed %v): the earlier refusals left the connection or the bucket in debt", lk, i, rc, len(fr), closed)
+					}
+				}
+			}
 			c.Close()
 			for _, f := range frames {
 				switch f.Msg.Rcode() {
